@@ -132,6 +132,45 @@ pub fn cases(tier: Tier) -> Vec<GCase> {
             out.push(truncate_case(n, x, tier));
         }
     }
+    // non-initial states: the input was range-checked before, or the component was
+    // already applied to the same witness (the alias adversaries stay in place)
+    for n in trunc_widths(tier) {
+        for x in [fe(5), neg1()] {
+            for w in [8usize, n, 252] {
+                let mut c = truncate_case(n, x, tier);
+                c.g = c.g.with_prelude(&format!("range{}", w), move |c, ins| { dispatch::range_bits(c, ins[0], w); Ok(()) });
+                if !m5::in_range(&x, w) {
+                    c.expect = Expect::Unsat;
+                }
+                c.class = "truncate/with-history".into();
+                c.dev_stride = if n <= 3 { 1 } else { 0 };
+                c.confirm = n <= 3 || n >= 253;
+                out.push(c);
+            }
+            let mut c = truncate_case(n, x, tier).after_self_call();
+            c.confirm = n <= 3 || n >= 253;
+            out.push(c);
+        }
+    }
+    for n in decomp_widths(tier) {
+        for x in [fe(5), neg1()] {
+            for w in [8usize, n.min(254), 252] {
+                let mut c = decomposition_case(n, x);
+                c.g = c.g.with_prelude(&format!("range{}", w), move |c, ins| { dispatch::range_bits(c, ins[0], w); Ok(()) });
+                if !m5::in_range(&x, w) {
+                    c.expect = Expect::Unsat;
+                }
+                c.class = format!("{}/with-history", c.class);
+                c.dev_stride = if n <= 3 { 1 } else { 0 };
+                c.rewire = false;
+                c.confirm = n <= 9 || n >= 254;
+                out.push(c);
+            }
+            let mut c = decomposition_case(n, x).after_self_call();
+            c.confirm = n <= 9 || n >= 254;
+            out.push(c);
+        }
+    }
     // the composer's constant witnesses as inputs
     for n in trunc_widths(tier) {
         for x in [zero(), one()] {
@@ -166,7 +205,7 @@ pub fn main(tier: Tier, replay: Option<serde_json::Value>) -> i32 {
     let mut run = Run::new("C11", tier, "model_checking");
     run.rule = "cases = (gadget, N, value); honest assignment + every bound-1 deviation + gadget-aware alias deviations (truncate: the (low', high') split of x + r on every ordered allocation pair; decomposition: the bit vectors of every other integer representative x + k r < 2^N, the complete adversary space given the boolean rows) re-run through the real generator and decided by M1; predicate: truncate always satisfiable and returns canonical(x) mod 2^N, decomposition satisfiable iff canonical(x) < 2^N and returns exactly its bits".into();
     let cs = cases(tier);
-    let cache = ConfirmCache::new(crate::setup::pp(1 << 10));
+    let cache = ConfirmCache::new(crate::setup::pp(1 << 11));
     if let Some(r) = replay {
         return crate::gadget::replay(run, &cs, &cache, &r);
     }
